@@ -1,5 +1,6 @@
 import Driver.Sub.Hypervolume
 import OptunaVerif.Generated.HvMethods
+import OptunaVerif.Generated.HsspMethods
 /-! Sub-driver `hvgen`: the protocol of `hypervolume` (C15), with the interpreters of the IR GENERATED from `optuna/_hypervolume/wfg.py`
 (`Generated/HvMethods.lean`, `Model/HvIR.lean`) run side by side with the hand model.  Answers of `hv` and `hvfin` carry `"gen"`:
 `null` when the generated `compute_hypervolume` (hence `_compute_2d` / `_compute_hv` / `_compute_exclusive_hv`) agrees with the hand model
@@ -8,6 +9,7 @@ open Lean
 namespace Driver.Sub.HvGen
 open OptunaVerif OptunaVerif.Hypervolume OptunaVerif.HvIR Driver Driver.Sub.Hypervolume
 open OptunaVerif.Generated.HvMethods (prog)
+open OptunaVerif.HsspIR OptunaVerif.Hssp
 
 def coutJson : COut → Json
   | .out o => Json.mkObj (hvOutJson o)
@@ -37,6 +39,19 @@ def extra (j : Json) : P (Option Json) := do
       diff s!"compute_hypervolume(assume_pareto={ap})" (chvGen prog (pts.map liftRow) (liftRow r) ap)
         (computeHypervolume (pts.map liftRow) (liftRow r) ap))
     return some (if ds.isEmpty then Json.null else Json.arr ds.toArray)
+  | "hssp" =>
+    -- `_solve_hssp` + `_solve_hssp_on_unique_loss_vals` as generated (lazy update / 2-d solver = the hand model's) vs the hand model
+    let pts ← parseRows j "pts"
+    let r ← parseRow (← field j "ref")
+    let k ← natF j "k"
+    let fin ← boolF j "finite"
+    let g := topGen Generated.HsspMethods.prog.top
+      (fun U l k => uniqueGen Generated.HsspMethods.prog.greedy (fun cs vs s => lazyUpdate r cs vs s)
+        (fun U labels k => hssp2dLoop k ((U.zip labels).map (fun e => { pt := e.1, label := e.2, dx := x0 r, dy := y1 r }))) U l k r fin)
+      pts (List.range pts.length) k
+    let h := Hssp.solveHssp pts k r fin
+    return some (if g == SV.idx h then Json.null else
+      Json.arr #[Json.mkObj [("method", "_solve_hssp"), ("generated", match g with | .idx l => jNats l | _ => Json.str "err"), ("hand", jNats h)]])
   | _ => return none
 
 def main : IO Unit :=
